@@ -29,7 +29,17 @@ RULE = (
     "(tick, kind, type-tagged value) list incl. terminal; for the synchronous factories every notification is at "
     "the subscription tick. Non-trivial: >=2 elements or a boundary parameter (empty range/iterable, n=0, zero "
     "delay, d=0, negative step, never). Cases reaching 90 actions at one instant are discarded as inconclusive. "
-    "Distinct = distinct case JSON."
+    "Distinct = distinct case JSON. long: range / from_iterable / repeat_value / generate with 99..2000 elements on "
+    "the library's own TestScheduler / VirtualTimeScheduler / HistoricalScheduler (no lab; the schedulers are only "
+    "subclassed to count enqueued items; the module constant MAX_SPINNING is set to its shipped value for the run "
+    "and restored), (a) through TestScheduler.start(create) with the default 200/1000 window, (b) subscribed at clock "
+    "0 next to reactivex.timer(T) on the same scheduler, either order. Oracle: all n values in order then exactly one "
+    "on_completed; model of the spin guard as implemented on the unchanged tree - the clock is nudged by one unit "
+    "(1 tick, or 1 ms on a datetime clock) at most once per MAX_SPINNING+1 consecutive same-instant dequeues and every "
+    "nudge restarts the count - hence (i) every notification of the source lies within floor(E/(MAX_SPINNING+1)) units "
+    "of the subscription instant, E = items enqueued during the run, and (ii) a timer due T>=1 units fires at exactly "
+    "T (a source only schedules at the current instant, so the timer is the first item due at T and is dequeued with "
+    "a fresh count right after the clock reaches T). Non-trivial (long): more than MAX_SPINNING+1 items enqueued."
 )
 ASSUMPTIONS = [
     "timer/generate_with_relative_time are never run on their default TimeoutScheduler (real threads); the virtual scheduler is always supplied",
@@ -39,6 +49,11 @@ ASSUMPTIONS = [
 ]
 
 LONGEST = 60
+
+import reactivex.scheduler.virtualtimescheduler as _vts  # noqa: E402
+
+# the shipped threshold, captured before any Lab() in this process overrides the module constant (Lab disables the nudge)
+SHIPPED_MAX_SPINNING = _vts.MAX_SPINNING if _vts.MAX_SPINNING < 10**6 else 100
 
 
 class _Inj(Exception):
@@ -451,6 +466,143 @@ def _case(draw):
     return c
 
 
+# ---------------------------------------------------------------------------------------
+# long synchronous sources on the library's own virtual-time schedulers (spin-guard region)
+
+
+def _counting(base):
+    class Counting(base):
+        __test__ = False
+        enqueued = 0
+
+        def schedule_absolute(self, duetime, action, state=None):
+            self.enqueued += 1
+            return super().schedule_absolute(duetime, action, state)
+
+    Counting.__name__ = "Counting" + base.__name__
+    return Counting
+
+
+def _long_source(spec):
+    f, n = spec["f"], spec["n"]
+    if f == "range":
+        a, st_ = spec["start"], spec["step"]
+        stop = a + st_ * n
+        return reactivex.range(a, stop, st_), list(range(a, stop, st_))
+    if f == "from_iterable":
+        return reactivex.from_iterable(list(range(n))), list(range(n))
+    if f == "repeat_value":
+        return reactivex.repeat_value("v", n), ["v"] * n
+    if f == "generate":
+        return reactivex.generate(0, lambda x: x < n, lambda x: x + 1), list(range(n))
+    raise HarnessError(f"long source {spec}")
+
+
+def _units(sched, clock):
+    """Clock value in nudge units since the zero clock (1 tick; 1 ms on a datetime clock)."""
+    from datetime import datetime as _dt
+
+    from reactivex.internal.constants import UTC_ZERO
+
+    if isinstance(clock, _dt):
+        return (clock - UTC_ZERO) / timedelta(microseconds=1000)
+    return float(clock)
+
+
+def _run_long(case):
+    from reactivex.scheduler import HistoricalScheduler, VirtualTimeScheduler
+    from reactivex.testing import TestScheduler
+
+    saved = _vts.MAX_SPINNING
+    _vts.MAX_SPINNING = SHIPPED_MAX_SPINNING
+    try:
+        return _run_long_inner(case, {"test": TestScheduler, "virtual": VirtualTimeScheduler, "historical": HistoricalScheduler})
+    finally:
+        _vts.MAX_SPINNING = saved
+
+
+def _run_long_inner(case, bases):
+    M = SHIPPED_MAX_SPINNING
+    spec, form = case["src"], case["form"]
+    f = spec["f"]
+    sched = _counting(bases[case["sched"]])()
+    o, want = _long_source(spec)
+    cls = [f"f:{f}", f"form:{form}", f"sched:{case['sched']}"]
+    src, tim = [], []  # [units, kind, value]
+    if form == "window":
+        res = sched.start(lambda: o)
+        src = [[float(m.time), m.value.kind, getattr(m.value, "value", None)] for m in res.messages]
+        t_sub = 200.0
+    else:
+        T = case["T"]
+        unit_s = 0.001 if case["sched"] == "historical" else 1.0
+
+        def sub_timer():
+            reactivex.timer(T * unit_s).subscribe(
+                lambda v: tim.append([_units(sched, sched.clock), "N", v]),
+                lambda e: tim.append([_units(sched, sched.clock), "E", e]),
+                lambda: tim.append([_units(sched, sched.clock), "C", None]),
+                scheduler=sched,
+            )
+
+        def sub_source():
+            o.subscribe(
+                lambda v: src.append([_units(sched, sched.clock), "N", v]),
+                lambda e: src.append([_units(sched, sched.clock), "E", e]),
+                lambda: src.append([_units(sched, sched.clock), "C", None]),
+                scheduler=sched,
+            )
+
+        for g in (sub_timer, sub_source) if case["order"] == "timer-first" else (sub_source, sub_timer):
+            g()
+        sched.start()
+        t_sub = 0.0
+    E = sched.enqueued
+    if E > M + 1:
+        cls.append("spin-guard-region")
+    vals = [m[2] for m in src if m[1] == "N"]
+    term = [m for m in src if m[1] != "N"]
+    if vals != want or [type(v) for v in vals] != [type(v) for v in want]:
+        k = next((i for i, (x, y) in enumerate(zip(vals, want)) if x != y), min(len(vals), len(want)))
+        return FAIL(f"long:values|{f}", f"{f} with {len(want)} elements delivered {len(vals)} values (first difference at #{k}); case={case}", classes=cls)
+    if len(term) != 1 or term[0][1] != "C" or src[-1][1] != "C":
+        return FAIL(f"long:no-completion|{f}", f"{f} with {len(want)} elements: terminal notifications {[m[:2] for m in term]}; case={case}", classes=cls)
+    bound = t_sub + E // (M + 1)
+    late = [m for m in src if not (t_sub - 1e-9 <= m[0] <= bound + 1e-9)]
+    if late:
+        return FAIL(f"long:clock-drift|{f}", f"{f}: notification {late[0][:2]} at {late[0][0]} but the spin guard allows at most {E}//{M + 1} nudges after {t_sub} (bound {bound}); last notification at {src[-1][0]}; case={case}", classes=cls)
+    if form == "timer":
+        exp = [[float(case["T"]), "N", 0], [float(case["T"]), "C", None]]
+        got = [[m[0], m[1], m[2]] for m in tim]
+        if [g[1:] for g in got] != [e[1:] for e in exp]:
+            return FAIL("long:timer-sequence|timer", f"timer({case['T']} units) next to {f}: got {got}; case={case}", classes=cls)
+        if any(abs(g[0] - e[0]) > 1e-6 for g, e in zip(got, exp)):
+            return FAIL("long:timer-late|timer", f"timer due at {case['T']} units next to {f} ({len(want)} elements) fired at {got[0][0]}; case={case}", classes=cls)
+        if src[-1][0] >= case["T"]:
+            cls.append("source-still-running-when-timer-due")
+    return OK(E > M + 1, cls)
+
+
+@st.composite
+def _long_case(draw):
+    f = draw(st.sampled_from(["range", "range", "generate", "repeat_value", "from_iterable"]))
+    n = draw(st.one_of(st.integers(99, 104), st.integers(100, 2000), st.sampled_from([202, 203, 450, 600, 930, 950, 1000, 2000])))
+    if f == "repeat_value":
+        n = min(n, 1000)
+    spec = {"f": f, "n": n}
+    if f == "range":
+        spec["start"] = draw(st.sampled_from([0, 0, 2000, -5]))
+        spec["step"] = draw(st.sampled_from([1, 1, 2, -1, -2]))
+    form = draw(st.sampled_from(["window", "timer", "timer"]))
+    c = {"form": form, "src": spec, "sched": "test"}
+    if form == "timer":
+        c["sched"] = draw(st.sampled_from(["test", "virtual", "historical"]))
+        c["T"] = draw(st.sampled_from([1, 2, 3, 5, 5, 9, 20, 50]))
+        c["order"] = draw(st.sampled_from(["timer-first", "source-first"]))
+    return c
+
+
+
 def _regress(tier):
     # the zero-delay shapes of the (fixed) generate_with_relative_time finding, kept as enumerated regressions
     for rep in ("int", "float", "td"):
@@ -461,5 +613,6 @@ def _regress(tier):
 def checks(tier):
     return [
         Check("zero-delay", _run, cases=_regress, shards={"quick": 1, "thorough": 1}, exhaustive=True),
+        Check("long", _run_long, strategy=_long_case(), examples={"quick": 400, "thorough": 16 * 1500}, shards={"quick": 2, "thorough": 16}),
         Check("factories", _run, strategy=_case(), examples={"quick": 6000, "thorough": 16 * 30000}, shards={"quick": 4, "thorough": 16}),
     ]
